@@ -436,6 +436,79 @@ theorem code_matches_model :
        "go | select <-finished | return"] := by
   refine ⟨rfl, rfl, rfl, rfl, rfl, rfl, rfl, rfl, rfl, rfl, rfl, rfl, rfl, rfl, rfl⟩
 
+/-! ### added: completion under every schedule / interference -/
+def closing (p : StopPc) : Prop := p = .lnClosed ∨ p = .connsClosed ∨ p = .returned
+
+theorem closing_stays (s s' : L) (l : Label) (hc : closing s.stopPc) (hs : step s l = some s') : closing s'.stopPc := by
+  unfold closing at *
+  cases l <;> simp only [step] at hs <;> (repeat' split at hs) <;> (try cases hs) <;> simp_all
+
+theorem run_append (s : L) (a b : List Label) : run s (a ++ b) = (run s a).bind fun s1 => run s1 b := by
+  induction a generalizing s with
+  | nil => rfl
+  | cons l ls ih =>
+    simp only [List.cons_append, run]
+    cases step s l with
+    | none => rfl
+    | some s1 => exact ih s1
+
+theorem run_snoc (s s1 s2 : L) (pre : List Label) (l : Label) (h : run s pre = some s1) (hs : step s1 l = some s2) :
+    run s (pre ++ [l]) = some s2 := by
+  rw [run_append, h]; simp [run, hs]
+
+/-- **Stop completes under every schedule.** Once Stop has closed the listener, let Stop and the
+listener's goroutines run in any order (clients may close connections, nothing else happens from
+outside): every such schedule has at most `mu s` steps, and when nothing can move any more Stop
+has returned. -/
+theorem stop_completes (limit : Nat) : ∀ (ls : List Label) (pre : List Label) (s : L),
+    run (init limit) pre = some s → closing s.stopPc → (∀ l ∈ ls, internal l = true) →
+    ∀ s', run s ls = some s' →
+      mu s' + ls.length ≤ mu s ∧ closing s'.stopPc ∧ ∃ pre', run (init limit) pre' = some s' := by
+  intro ls
+  induction ls with
+  | nil => intro pre s h hc _ s' hr; simp [run] at hr; subst hr; exact ⟨by simp, hc, pre, h⟩
+  | cons l ls ih =>
+    intro pre s h hc hint s' hr
+    simp only [run] at hr
+    cases hs : step s l with
+    | none => simp [hs] at hr
+    | some s1 =>
+      simp only [hs] at hr
+      have hl := hint l (by simp)
+      -- the step is a winding one: nothing is accepted any more and the bind loop cannot start over
+      have hw : winding l = true := by
+        cases l with
+        | accept =>
+          have := no_accept_after_stop_closed_the_listener limit pre s h hc
+          rw [this] at hs; cases hs
+        | checkOk =>
+          have h1 := inv1_run pre _ s (inv1_init limit) h
+          have hq : s.quit = true := h1.quitSet (by rcases hc with h | h | h <;> rw [h] <;> intro h' <;> cases h')
+          simp [step, hq] at hs
+        | clientClose a => cases hl
+        | stopQuit => cases hl
+        | drainClose => cases hl
+        | serveEnter => cases hl
+        | _ => rfl
+      have hdec := winding_step_decreases s s1 l hw hs
+      have hreach := run_snoc (init limit) s s1 pre l h hs
+      have := ih (pre ++ [l]) s1 hreach (closing_stays s s1 l hc hs) (fun x hx => hint x (by simp [hx])) s' hr
+      exact ⟨by simp only [List.length_cons]; omega, this.2.1, this.2.2⟩
+
+theorem stuck_means_returned (limit : Nat) (pre : List Label) (s : L) (h : run (init limit) pre = some s)
+    (hc : closing s.stopPc) (hstuck : ∀ l, internal l = true → step s l = none) : s.stopPc = .returned := by
+  cases hp : s.stopPc with
+  | returned => rfl
+  | idle => rcases hc with h | h | h <;> rw [hp] at h <;> cases h
+  | quitClosed => rcases hc with h | h | h <;> rw [hp] at h <;> cases h
+  | regTaken => rcases hc with h | h | h <;> rw [hp] at h <;> cases h
+  | lnClosed =>
+    obtain ⟨l, hl, hen⟩ := stop_never_stuck limit pre s h (by rw [hp]; intro h; cases h) (by rw [hp]; intro h; cases h)
+    rw [hstuck l hl] at hen; cases hen
+  | connsClosed =>
+    obtain ⟨l, hl, hen⟩ := stop_never_stuck limit pre s h (by rw [hp]; intro h; cases h) (by rw [hp]; intro h; cases h)
+    rw [hstuck l hl] at hen; cases hen
+
 end SamVerif.Props.C09
 
 #print axioms SamVerif.Props.C09.stop_releases
@@ -449,3 +522,5 @@ end SamVerif.Props.C09
 #print axioms SamVerif.Props.C09.old_stop_before_bind_hangs
 #print axioms SamVerif.Props.C09.old_stop_between_bind_and_publication
 #print axioms SamVerif.Props.C09.code_matches_model
+#print axioms SamVerif.Props.C09.stop_completes
+#print axioms SamVerif.Props.C09.stuck_means_returned
